@@ -30,6 +30,15 @@ Loop(requested, defaults) ==
 \* a single-language run of language x (no default languages)
 Single(x) == IF x.app /\ x.ok THEN [loc |-> x.id, res |-> x.res] ELSE NoResult
 
+\* ------------------------------------------------------------------ the parser loop of one locale
+\* _DateLocaleParser._parse: the parsers named in PARSERS run in that order; the first one whose result is valid ends
+\* the loop.  tries: what ran, as <<name, valid>> pairs.
+ParserLoopOK(parsers, tries, found) ==
+  /\ Len(tries) <= Len(parsers)
+  /\ \A i \in 1..Len(tries) : tries[i][1] = parsers[i]
+  /\ \A i \in 1..Len(tries) : tries[i][2] <=> (i = Len(tries) /\ found)
+  /\ (~found => Len(tries) = Len(parsers))
+
 \* ------------------------------------------------------------------ exception flow (C02)
 \* stages in code order with their may-raise sets, and what the enclosing handlers catch
 Stages == <<"check_type", "check_settings", "formats_first", "sanitize", "load_locales", "applicable",
